@@ -329,7 +329,7 @@ def main(argv=None):
             new[(check, sig)] = lst
 
     guard_msgs = []
-    if not errors and hasattr(mod, 'guards'):
+    if not errors and hasattr(mod, 'guards') and not args.tasks:
         try:
             guard_msgs = list(mod.guards(tier, counters, evaluations, len(nt)) or [])
         except Exception as e:  # noqa
